@@ -88,6 +88,9 @@ structure EncR (ι : Type) where
   cache : Bytes
   cpos : Nat
   chunkNo : Nat
+  /-- a chunk failed to authenticate while reading: reads keep failing until a successful seek
+      (repair D22) -/
+  failed : Bool := false
 
 /-- split `data ‖ tag`, verify, decrypt -/
 def openChunk (P : Params) (C : EncPrims) (i : Nat) (dt : Bytes) : Except Err Bytes :=
@@ -117,9 +120,10 @@ def EncR.fromCache (P : Params) (r : EncR ι) (n : Nat) : EncR ι × Bytes :=
 
 /-- `read_internal` with the state after an error kept -/
 def EncR.readFull (P : Params) (C : EncPrims) (r : EncR ι) (n : Nat) : EncR ι × Except Err Bytes :=
+  if r.failed then (r, .error .wrongTag) else
   if P.chunk - r.cpos = 0 then
     match EncR.load P C { r with chunkNo := r.chunkNo + 1 } with
-    | (r', .error e) => (r', .error e)
+    | (r', .error e) => ({ r' with failed := true }, .error e)
     | (r', .ok false) => (r', .ok [])
     | (r', .ok true) => let (r'', out) := EncR.fromCache P r' n; (r'', .ok out)
   else
@@ -134,8 +138,8 @@ def EncR.seekStart (P : Params) (C : EncPrims) (r : EncR ι) (pos : Nat) : EncR 
   | .ok (i, _) =>
     if U32 ≤ cn then ({ r with inner := i }, .error .io) else
     match EncR.load P C { r with inner := i, chunkNo := cn } with
-    | (r', .error e) => (r', .error e)
-    | (r', .ok _) => ({ r' with cpos := tagPos % (P.chunk + P.tagLen) }, .ok pos)
+    | (r', .error e) => ({ r' with failed := true }, .error e)
+    | (r', .ok _) => ({ r' with cpos := tagPos % (P.chunk + P.tagLen), failed := false }, .ok pos)
 
 def EncR.seekFull (P : Params) (C : EncPrims) (r : EncR ι) : SeekFrom → EncR ι × Except Err Nat
   | .start pos => EncR.seekStart P C r pos
@@ -170,7 +174,7 @@ instance (P : Params) (C : EncPrims) : Stream (EncRd P C ι) where
 
 /-- `EncryptionLayerReader::new` + `initialize` (= `rewind`) -/
 def EncR.init (P : Params) (C : EncPrims) (inner : ι) : EncR ι × Except Err Nat :=
-  EncR.seekStart P C ⟨inner, [], 0, 0⟩ 0
+  EncR.seekStart P C ⟨inner, [], 0, 0, false⟩ 0
 
 /-! ### Functional specification of decryption (what the format defines) -/
 
